@@ -63,3 +63,14 @@ func Mix(parts ...uint64) uint64 {
 	}
 	return x
 }
+
+// Perm returns a pseudo-random permutation of 0..n-1.
+func (r *Rand) Perm(n int) []int {
+	p := make([]int, n)
+	for i := range p {
+		j := r.Intn(i + 1)
+		p[i] = p[j]
+		p[j] = i
+	}
+	return p
+}
